@@ -172,13 +172,13 @@ func (f *frame) resultVal(nm string, t types.Type) Val {
 }
 
 func (f *frame) havocMods(h *Heap, mods map[string]bool, all bool) {
-	f.havocModsT(h, mods, all, nil, nil)
+	f.havocModsT(h, mods, all, nil, nil, false)
 }
 
 // havocModsT havocs what a call may modify. touched (component -> object refs), when non-nil for a component,
 // restricts the change of that component to those objects. Storage this function allocated and never let
 // escape cannot be reached by the callee and keeps its contents.
-func (f *frame) havocModsT(h *Heap, mods map[string]bool, all bool, touched map[string][]string, except map[string]bool) {
+func (f *frame) havocModsT(h *Heap, mods map[string]bool, all bool, touched map[string][]string, except map[string]bool, objFramed bool) {
 	e := f.e
 	before := map[string]string{}
 	for k, v := range h.m {
@@ -197,7 +197,7 @@ func (f *frame) havocModsT(h *Heap, mods map[string]bool, all bool, touched map[
 				if _, isT := touched[k]; isT {
 					continue
 				}
-				if strings.HasPrefix(k, "F.") && e.w.ownType(k) {
+				if strings.HasPrefix(k, "F.") && e.w.ownType(k) && objFramed {
 					continue // touches clause: no other pre-existing object changes (fresh objects are invisible here)
 				}
 			}
@@ -291,7 +291,7 @@ func (e *Engine) frameTrivial(cur, old string, touched []string, depth int) bool
 
 // touchedOf evaluates the contract's touches clause in the function's entry state.
 func (f *frame) touchedOf() (map[string][]string, map[string]bool) {
-	if f.con == nil || len(f.con.Touches) == 0 {
+	if f.con == nil || (len(f.con.Touches) == 0 && len(f.con.WritesTo) == 0) {
 		return nil, nil
 	}
 	if f.touched != nil {
@@ -317,6 +317,34 @@ func (f *frame) touchedOf() (map[string][]string, map[string]bool) {
 			e.specErr("touches: %s is not an object", tc.Src)
 		}
 	}
+	if len(f.con.WritesTo) > 0 {
+		for _, wc := range f.con.WritesTo {
+			for _, g := range ghostRole(wc.Label) {
+				if _, ok := f.touched["G."+g]; !ok {
+					f.touched["G."+g] = []string{}
+				}
+				if _, ok := e.comps["G."+g]; !ok {
+					e.comps["G."+g] = fmt.Sprintf("(Array Int %s)", ghostSorts[g])
+				}
+			}
+		}
+		for _, wc := range f.con.WritesTo {
+			if wc.Expr == nil {
+				continue
+			}
+			v, _ := e.eval(env, wc.Expr)
+			key := e.scalar(v)
+			for _, g := range ghostRole(wc.Label) {
+				f.touched["G."+g] = append(f.touched["G."+g], key)
+			}
+		}
+		f.ghostFramed = true
+	}
+	if len(f.con.Touches) == 0 {
+		f.objFramed = false
+	} else {
+		f.objFramed = true
+	}
 	return f.touched, f.touchedTypes
 }
 
@@ -330,7 +358,10 @@ func (f *frame) frameObs(kind string, pc string, from, to *Heap, pos token.Pos) 
 	var ks []string
 	_ = tys
 	for k := range e.comps {
-		if strings.HasPrefix(k, "F.") && e.w.ownType(k) {
+		if strings.HasPrefix(k, "F.") && e.w.ownType(k) && f.objFramed {
+			ks = append(ks, k)
+		}
+		if _, framed := touched[k]; strings.HasPrefix(k, "G.") && f.ghostFramed && framed {
 			ks = append(ks, k)
 		}
 	}
@@ -357,9 +388,23 @@ func (f *frame) frameObs(kind string, pc string, from, to *Heap, pos token.Pos) 
 			ne = append(ne, fmt.Sprintf("(not (= %s %s))", bv, r))
 		}
 		e.useQuant = true
-		cond := fmt.Sprintf("(forall ((%s Int)) (=> (and (<= %s pre) %s) (= (select %s %s) (select %s %s))))", bv, bv, and(ne...), cur, bv, old, bv)
+		bound := fmt.Sprintf("(<= %s pre)", bv)
+		if strings.HasPrefix(k, "G.") {
+			bound = "true"
+		}
+		cond := fmt.Sprintf("(forall ((%s Int)) (=> (and %s %s) (= (select %s %s) (select %s %s))))", bv, bound, and(ne...), cur, bv, old, bv)
 		e.ob(f, kind, "touches: only the named objects change in "+k, f.tags, pc, cond, pos)
 	}
+}
+
+// hasObjKeys: the touched map comes from a touches clause (object frame), not only from a writesto clause.
+func hasObjKeys(touched map[string][]string) bool {
+	for k := range touched {
+		if strings.HasPrefix(k, "F.") {
+			return true
+		}
+	}
+	return false
 }
 
 func modsPattern(mods map[string]bool, k string) bool {
@@ -584,8 +629,10 @@ func (f *frame) applyContract(in ssa.Instruction, callee *ssa.Function, con *Con
 		}
 	}
 	var touched map[string][]string
-	if len(con.Touches) > 0 {
+	if len(con.Touches) > 0 || len(con.WritesTo) > 0 {
 		touched = map[string][]string{}
+	}
+	if len(con.Touches) > 0 {
 		for _, tc := range con.Touches {
 			if tc.Expr == nil {
 				continue
@@ -602,6 +649,31 @@ func (f *frame) applyContract(in ssa.Instruction, callee *ssa.Function, con *Con
 			}
 		}
 	}
+	if len(con.WritesTo) > 0 {
+		if touched == nil {
+			touched = map[string][]string{}
+		}
+		for _, wc := range con.WritesTo {
+			for _, g := range ghostRole(wc.Label) {
+				if _, ok := touched["G."+g]; !ok {
+					touched["G."+g] = []string{}
+				}
+			}
+		}
+		for _, wc := range con.WritesTo {
+			if wc.Expr == nil {
+				continue
+			}
+			v, _ := e.eval(env, wc.Expr)
+			key := e.scalar(v)
+			for _, g := range ghostRole(wc.Label) {
+				touched["G."+g] = append(touched["G."+g], key)
+				if _, ok := e.comps["G."+g]; !ok {
+					e.comps["G."+g] = fmt.Sprintf("(Array Int %s)", ghostSorts[g])
+				}
+			}
+		}
+	}
 	if con.HasMods {
 		m := map[string]bool{}
 		all := false
@@ -612,12 +684,12 @@ func (f *frame) applyContract(in ssa.Instruction, callee *ssa.Function, con *Con
 				m[k] = true
 			}
 		}
-		f.havocModsT(h, m, all, touched, nil)
+		f.havocModsT(h, m, all, touched, nil, len(con.Touches) > 0)
 	} else if callee.Blocks != nil && e.w.inScope(callee) {
 		mods, all := e.w.modsOf(callee)
-		f.havocModsT(h, mods, all, touched, nil)
+		f.havocModsT(h, mods, all, touched, nil, len(con.Touches) > 0)
 	} else {
-		f.havocModsT(h, nil, true, touched, nil)
+		f.havocModsT(h, nil, true, touched, nil, len(con.Touches) > 0)
 	}
 
 	water := e.water()
@@ -662,7 +734,12 @@ func (f *frame) builtin(in ssa.Instruction, b *ssa.Builtin, c *ssa.CallCommon, a
 			} else if _, isMap := under(t).(*types.Map); isMap {
 				if _, _, card, _, _, ok := e.mapComps(h, t); ok {
 					v := e.define(nm+".len", "Int", fmt.Sprintf("(ite (= %s 0) 0 (select %s %s))", a.T, card, a.T))
-					e.assume(fmt.Sprintf("(>= %s 0)", v))
+					// a map holds at most as many entries as its key type has values, and never more than fit in memory (A1)
+					bound := maxCap
+					if ki, ok := intInfoOf(under(t).(*types.Map).Key()); ok && ki.bits <= 32 {
+						bound = ki.mod
+					}
+					e.assume(fmt.Sprintf("(and (>= %s 0) (<= %s %s))", v, v, bound))
 					f.setResult(in, Sc{v})
 				} else {
 					v := e.fresh(nm+".len", "Int")
@@ -911,7 +988,7 @@ func (f *frame) invoke(in ssa.Instruction, c *ssa.CallCommon, recv Val, args []V
 		return nat(f, in, c, r, args, pc, h, nm, resT)
 	}
 	e.unmod["invoke "+key]++
-	mods, all := e.w.invokeMods(c.Method)
+	mods, all := e.w.invokeMods(c.Method, c.Value.Type())
 	f.havocMods(h, mods, all)
 	if resT != nil {
 		f.setResult(in, f.resultVal(nm, resT))
@@ -948,7 +1025,7 @@ func (f *frame) dynamicCall(in ssa.Instruction, c *ssa.CallCommon, args []Val, p
 	for k := range ghostSorts {
 		mods["G."+k] = true
 	}
-	f.havocModsT(h, mods, false, touched, nil) // A7: a callback changes only the objects it is handed
+	f.havocModsT(h, mods, false, touched, nil, true) // A7: a callback changes only the objects it is handed
 	if resT != nil {
 		f.setResult(in, f.resultVal(nm, resT))
 	}
@@ -1073,11 +1150,11 @@ func (w *World) instrMods(e *Engine, fn *ssa.Function, ins ssa.Instruction, out 
 					out.m[k] = true
 				}
 				// in-scope implementations run real code
-				m, all := w.implMods(c.Method, stack)
+				m, all := w.implMods(c.Method, c.Value.Type(), stack)
 				add(m, all)
 				return
 			}
-			m, all := w.invokeModsS(c.Method, stack)
+			m, all := w.invokeModsS(c.Method, c.Value.Type(), stack)
 			add(m, all)
 			return
 		}
@@ -1234,10 +1311,10 @@ func (w *World) loopMods(fn *ssa.Function, li *loopInfo) (map[string]bool, map[s
 }
 
 // implMods: union of the effects of the in-scope implementations of an interface method.
-func (w *World) implMods(m *types.Func, stack map[*ssa.Function]bool) (map[string]bool, bool) {
+func (w *World) implMods(m *types.Func, iface types.Type, stack map[*ssa.Function]bool) (map[string]bool, bool) {
 	out := map[string]bool{}
 	all := false
-	for _, fn := range w.implementations(m) {
+	for _, fn := range w.implementations(m, iface) {
 		mm, a := w.modsOfS(fn, stack)
 		for k := range mm {
 			out[k] = true
@@ -1249,12 +1326,12 @@ func (w *World) implMods(m *types.Func, stack map[*ssa.Function]bool) (map[strin
 	return out, all
 }
 
-func (w *World) invokeMods(m *types.Func) (map[string]bool, bool) {
-	return w.invokeModsS(m, map[*ssa.Function]bool{})
+func (w *World) invokeMods(m *types.Func, iface types.Type) (map[string]bool, bool) {
+	return w.invokeModsS(m, iface, map[*ssa.Function]bool{})
 }
 
-func (w *World) invokeModsS(m *types.Func, stack map[*ssa.Function]bool) (map[string]bool, bool) {
-	out, all := w.implMods(m, stack)
+func (w *World) invokeModsS(m *types.Func, iface types.Type, stack map[*ssa.Function]bool) (map[string]bool, bool) {
+	out, all := w.implMods(m, iface, stack)
 	// unknown external implementations: byte buffers handed to them and ghost state (A2/A6/A7)
 	out["E.uint8"] = true
 	for k := range ghostSorts {
@@ -1263,21 +1340,30 @@ func (w *World) invokeModsS(m *types.Func, stack map[*ssa.Function]bool) (map[st
 	return out, all
 }
 
-// implementations finds in-scope concrete methods with the same name and signature shape.
-func (w *World) implementations(m *types.Func) []*ssa.Function {
+// implementations finds the in-scope concrete methods that can run when method m is invoked on a value of the
+// given interface type: methods of the same name on types that implement that interface.
+func (w *World) implementations(m *types.Func, iface types.Type) []*ssa.Function {
 	w.mu.Lock()
 	defer w.mu.Unlock()
-	key := m.Name() + "/" + sigShape(m.Type().(*types.Signature))
+	it, _ := under(iface).(*types.Interface)
+	key := m.Name() + "/" + sigShape(m.Type().(*types.Signature)) + "/" + types.TypeString(iface, nil)
 	if r, ok := w.implCache[key]; ok {
 		return r
 	}
 	var out []*ssa.Function
 	for _, fn := range w.funcs {
-		if fn.Signature.Recv() == nil || fn.Name() != m.Name() || fn.Blocks == nil {
+		recv := fn.Signature.Recv()
+		if recv == nil || fn.Name() != m.Name() || fn.Blocks == nil {
 			continue
 		}
 		if sigShape(fn.Signature) != sigShape(m.Type().(*types.Signature)) {
 			continue
+		}
+		if it != nil {
+			rt := recv.Type()
+			if !types.Implements(rt, it) && !types.Implements(types.NewPointer(rt), it) {
+				continue
+			}
 		}
 		out = append(out, fn)
 	}
